@@ -127,7 +127,7 @@ def _keyword(rng, limit, taken, near=None):
             return w
 
 
-PROFILES = ["one", "pow2", "pow2_single", "boundary", "many_small", "mixed", "shared_ids", "big_list", "long_keywords", "structured_ids"]
+PROFILES = ["one", "pow2", "pow2_single", "boundary", "many_small", "mixed", "shared_ids", "big_list", "long_keywords", "structured_ids", "close_keywords"]
 # large databases (array indexes, counters and pointer widths beyond one byte); run for one configuration per scheme
 BIG_PROFILES = ["many_keywords", "long_list"]
 
@@ -175,6 +175,8 @@ def gen_db(name, cfg, rng, profile, scale=1):
         lens = [rng.randint(1, 5) for _ in range(rng.randint(1, 4))]
     elif profile == "structured_ids":
         lens = [rng.randint(5, 14 * scale)] + [rng.randint(1, 6) for _ in range(rng.randint(1, 3))]
+    elif profile == "close_keywords":
+        lens = [rng.randint(1, 5) for _ in range(6)]
     elif profile == "many_keywords":
         lens = [rng.randint(1, 4) for _ in range(150)]
     elif profile == "long_list_2byte":
@@ -189,8 +191,18 @@ def gen_db(name, cfg, rng, profile, scale=1):
     db = {}
     pool = []
     used = set()
+    close = []
+    if profile == "close_keywords":
+        # STORED keywords that are adversarially close to one another: NUL-extended, a prefix, one more byte, one bit flipped -
+        # all valid (non-empty, no leading NUL, within the length limit) and pairwise different
+        base = bytes([rng.randint(1, 255)]) + bytes(rng.getrandbits(8) for _ in range(min(limit, 8) - 3))
+        for c in (base, base + b"\x00", base + b"\x00\x00", base[:-1], base + b"x", base[:-1] + bytes([base[-1] ^ 1])):
+            if c and c[0] != 0 and len(c) <= limit and c not in close:
+                close.append(c)
     for l in lens:
         w = _keyword(rng, limit, db)
+        if close:
+            w = close.pop(0)
         if profile == "long_keywords" and limit >= 40:
             # keywords longer than a hash block (the schemes built on HMAC set no limit)
             w = bytes([rng.randint(1, 255)]) + bytes(rng.getrandbits(8) for _ in range(rng.randint(64, 90)))
